@@ -58,11 +58,13 @@ const Q_BB: i64 = 15;
 const Q_SMOOTH: i64 = 16;
 const Q_CONDITION: i64 = 17;
 const Q_CONDITION_MODEL: i64 = 18;
-const NQ: usize = 19;
+/// export through the serialisable mirror types (a public walk over the diagram like any other query)
+const Q_SERIALIZE: i64 = 19;
+const NQ: usize = 20;
 const QNAMES: [&str; NQ] = [
     "wmc<Real>", "wmc<FF tiny>", "wmc<FF small>", "wmc<FF 64>", "evaluate", "wmc<Rational>", "wmc<Complex>", "wmc<ExpectedUtility>",
     "wmc<Polynomial>", "count_nodes", "semantic_hash", "cached_semantic_hash", "bdd_fold", "marginal_map", "meu", "bb", "smooth",
-    "condition", "condition_model",
+    "condition", "condition_model", "serialize",
 ];
 
 type Ans = Vec<u64>;
@@ -253,8 +255,12 @@ fn bdd_query(b: &'static RobddBuilder<'static, AllIteTable<BPtr>>, p: BPtr, q: i
         }
         Q_CONDITION_MODEL => {
             let asg: Vec<Option<bool>> = (0..n).map(|v| if bit(a1, v) { Some(bit(a2, v)) } else { None }).collect();
-            let r = b.condition_model(p, &PartialModel::from_assignments(&asg));
+            let r = b.condition_model(p, &wb::model_with_history(&asg, (a2 >> 20) & 1 == 1, (a1 ^ (a2 >> 3)) as u32));
             (vec![wb::sig(r, &mut BTreeMap::new())], Some(r))
+        }
+        Q_SERIALIZE => {
+            let ser = rsdd::serialize::BDDSerializer::from_bdd(p);
+            (vec![crate::rng::str_hash(&serde_json::to_string(&ser).unwrap_or_default())], None)
         }
         _ => (vec![], None),
     }
@@ -542,6 +548,10 @@ fn sdd_query(b: &'static CompressionSddBuilder<'static>, p: SPtr, q: i64, a1: i6
             let r = b.condition(p, VarLabel::new((a1.unsigned_abs() as usize % n) as u64), a2 & 1 == 1);
             (vec![ws::sig(r, &mut BTreeMap::new())], Some(r))
         }
+        Q_SERIALIZE => {
+            let ser = rsdd::serialize::SDDSerializer::from_sdd(p);
+            (vec![crate::rng::str_hash(&serde_json::to_string(&ser).unwrap_or_default())], None)
+        }
         _ => (vec![], None),
     }
 }
@@ -600,7 +610,7 @@ fn run_sdd(plan: &Plan, ctx: &mut Ctx) -> R {
             }
             Q => {
                 let mut q = op.a[0].rem_euclid(NQ as i64);
-                if q > Q_CACHED_SEMHASH && q != Q_CONDITION {
+                if q > Q_CACHED_SEMHASH && q != Q_CONDITION && q != Q_SERIALIZE {
                     q = q % (Q_CACHED_SEMHASH + 1);
                 }
                 let h = resolve(op.a[1], np);
@@ -713,7 +723,7 @@ fn run_topdown(plan: &Plan, ctx: &mut Ctx) -> R {
             S_CHILD => {}
             Q => {
                 let mut q = op.a[0].rem_euclid(NQ as i64);
-                if q > Q_SEMHASH && q != Q_CONDITION {
+                if q > Q_SEMHASH && q != Q_CONDITION && q != Q_SERIALIZE {
                     q = q % (Q_SEMHASH + 1);
                 }
                 let h = resolve(op.a[1], np);
@@ -722,6 +732,10 @@ fn run_topdown(plan: &Plan, ctx: &mut Ctx) -> R {
                 let run_q = |bb: &'static StandardDecisionNNFBuilder<'static>, p: BPtr| -> (Ans, Option<BPtr>) {
                     if let Some(a) = generic_query(&p, q, a1, &w, n) {
                         return (a, None);
+                    }
+                    if q == Q_SERIALIZE {
+                        let ser = rsdd::serialize::BDDSerializer::from_bdd(p);
+                        return (vec![crate::rng::str_hash(&serde_json::to_string(&ser).unwrap_or_default())], None);
                     }
                     let v = a1.unsigned_abs() as usize % n;
                     let r = bb.condition(p, VarLabel::new(v as u64), a2 & 1 == 1);
@@ -822,7 +836,18 @@ impl World for QueryWorld {
             } else {
                 let q = o.weighted(&qw) as i64;
                 // repeat immediately / on the complement / on a sub-diagram come from the operand distribution
-                ops.push(Op { c: caller, k: Q, a: [q, gen_operand(&mut o), (o.next() >> 40) as i64, (o.next() >> 40) as i64] });
+                // argument words: mostly random bits; sometimes the shapes random bits rarely give
+                // (no variable, one variable, every variable: empty / singleton / full lists and models)
+                let word = |o: &mut Rng| -> i64 {
+                    match o.below(12) {
+                        0 => 0,
+                        1 => 1i64 << o.below(8),
+                        2 => (1i64 << 24) - 1,
+                        _ => (o.next() >> 40) as i64,
+                    }
+                };
+                let (w1, w2) = (word(&mut o), word(&mut o));
+                ops.push(Op { c: caller, k: Q, a: [q, gen_operand(&mut o), w1, w2] });
                 if o.below(5) == 0 {
                     let last = ops.last().unwrap().clone();
                     ops.push(last);
